@@ -87,7 +87,8 @@ def markers(param, subset, rng, polarity):
         # "shape": the same key holds a map at one level and a scalar / list / map at the next more specific one: the more specific value wins as it is
         shapes = {"root": {"m": {"fromR": 1}}, "pkg": "scalar-P", "iface": {"m": {"fromI": 1}, "n": 2}, "cfg": [1, "two"]}
         for l in subset:
-            out[l] = {"k": "v" + L[l], "only" + L[l]: True, "nest": {"shared": "n" + L[l], "from" + L[l]: 1, "deep": {"d": "dd" + L[l], "x" + L[l]: 2}}, "shape": shapes[l]}
+            out[l] = {"k": "v" + L[l], "only" + L[l]: True, "nest": {"shared": "n" + L[l], "from" + L[l]: 1, "big" + L[l]: 2500000 + LEVELS.index(l), "deep": {"d": "dd" + L[l], "x" + L[l]: 2, "huge" + L[l]: 9007199254740993}},
+                      "shape": shapes[l]}   # integers that a float64 detour would print differently (2.5e+06) or round (2^53+1)
     elif param == "replace-type":
         for n, l in enumerate(subset):
             k = LEVELS.index(l) + 1
@@ -163,7 +164,7 @@ def gen_cases(ctx):
         def td(tag):
             d = {"k" + tag: "v" + tag}
             if nested:
-                d["nest"] = {"from" + tag: tag, "deep": {"d" + tag: 1}}
+                d["nest"] = {"from" + tag: tag, "big" + tag: 3000000, "deep": {"d" + tag: 1, "huge" + tag: 9007199254740993}}
             return d
         if root_td and nested:
             root_td = dict(root_td, nest={"fromR": "R", "deep": {"dR": 1}})
@@ -251,6 +252,9 @@ def eval_levels(ctx, case):
         cfg.pop("pkgname")
     if param in ("template", "formatter", "require-template-schema-exists"):
         cfg.pop(param)
+    if param == "template" and not case.get("onefile"):
+        # the effective template is also what the variable {{.Template}} of a templated value is bound to, entry by entry
+        cfg["filename"] = "t_{{.StructName}}_{{.Template | base}}.go"
     files = dict(SRC)
     for pid in "ABC":
         files["probe%s.templ" % pid] = probe.probe_template(pid)
@@ -532,7 +536,7 @@ def gen_recleak_case(rng, i):
     def td(tag, nested):
         d = {"k" + tag: "v" + tag}
         if nested:
-            d["nest"] = {"from" + tag: tag, "deep": {"d" + tag: 1}}
+            d["nest"] = {"from" + tag: tag, "big" + tag: 3000000, "deep": {"d" + tag: 1, "huge" + tag: 9007199254740993}}
         return d
     nested = rng.random() < 0.6
     c = {"kind": "recleak", "i": i, "root_td": td("R", nested) if rng.random() < 0.6 else None, "pk": {}}
